@@ -3,6 +3,11 @@
 PROPS = {
     "C08": dict(
         pkg="c08", race=False, level="exploration",
+        claim="property-based round-trip testing of every built-in scalar marshaler/unmarshaler and of FieldSet/Array/Omittable/Response "
+              "compositions against an independent strict RFC 8259 parser; hundreds of thousands (quick) to millions (thorough) of "
+              "generated, boundary-weighted values",
+        note="trusts the harness strict JSON parser, encoding/json and strconv as decoders; sampled, not exhaustive",
+        technique="property-based testing (rapid): round-trip oracle + strict-JSON validity predicate over generated values",
         quick=dict(shards=8, timeout=300), thorough=dict(shards=16, timeout=3000),
         rule="cases are drawn by rapid generators per scalar kind (strings from byte chunks incl. invalid UTF-8/control/quote, "
              "integers around every width boundary, float bit patterns, times, durations, UUIDs, JSON trees, FieldSet/Array "
@@ -13,3 +18,6 @@ PROPS = {
                      "times are restricted to local years 0..9999 and whole-minute offsets (what RFC 3339 can express)"],
     ),
 }
+
+# properties deliberately not claimed (reason); anything else missing from PROPS is "not built yet"
+NOT_CLAIMED = {}
